@@ -15,7 +15,7 @@ RULE = (
     "only through id assignment; children without values) with transient state added (desired values, withheld "
     "replies, reboot flags, OTA sessions), for 5 versions. Each state is saved by stop() and loaded by a fresh "
     "gateway through start_persistence(), as .json and as .pickle: the typed projection (int keys at all three "
-    "levels, int/str/None attribute types) must equal the pre-save projection, both formats must agree, and the "
+    "levels, int/str/None attribute types) and the iteration order of nodes / children / values must equal the pre-save ones, both formats must agree, and the "
     "loaded gateway must carry no transient state and emit nothing on its first pump. Non-trivial = >= 2 nodes, "
     ">= 1 child with >= 2 values, >= 1 non-ASCII payload, >= 1 transient item; distinct by state hash."
 )
@@ -102,6 +102,10 @@ def after_load(driver, version, ops):
     return out
 
 
+def iteration_order(gw):
+    return [[nid, [[cid, list(child.values)] for cid, child in sensor.children.items()]] for nid, sensor in gw.sensors.items()]
+
+
 def check_case(case, stats=None):
     version = case["version"]
     results = {}
@@ -116,6 +120,7 @@ def check_case(case, stats=None):
                     stats.label("foreign:pump-crash")
                 return
             before = drive.typed(life.projection())
+            order_before = iteration_order(life.gw)
             trans = drive.transient(life.gw)
             try:
                 life.stop()
@@ -131,6 +136,10 @@ def check_case(case, stats=None):
                     f"roundtrip.{ext}", case,
                     f"{ext}: state after load differs from state before save: {first_diff(before, after)}",
                 )
+            # dicts are ordered and the order is observable (iteration over nodes / children / values decides
+            # the order of the commands of a wake-up burst): the restored tree iterates like the saved one
+            if iteration_order(loaded.gw) != order_before:
+                raise Violation(f"roundtrip.order.{ext}", case, f"{ext}: nodes / children / values iterate in a different order after the load: {order_before} -> {iteration_order(loaded.gw)}")
             # transient state must not be resurrected
             for nid, s in loaded.gw.sensors.items():
                 if s.new_state or s.queue or s.reboot or s.is_smart_sleep_node:
